@@ -480,6 +480,117 @@ def prove_candidates(src_root, ex: Explorer):
     ex.run(atomic, 'set-parent-atomic')
 
 
+def prove_set_parent_tells_current(src_root, ex: Explorer):
+    """_set_parent suspends in its clean-up (cancelling the other attempts, closing the other candidates) BEFORE it tells the server and
+    the children.  The parent can be lost during that suspension (server reset, stop(): the CLOSED path detaches it and tells everybody
+    "no parent").  What _set_parent tells after it resumes must be the position derived from the parent AT THAT TIME, not a value computed
+    before the suspension - otherwise the last thing the server hears is a stale position (truthful advertised place)."""
+    def path(ctx: Ctx):
+        it = mk(src_root, ctx)
+        t = Tree(it, ctx, parent=False, n_children=1)
+        peer = t.extra
+        if peer.attrs['branch_level'] is None:
+            return
+        lost = []
+
+        def on_yield(it2, label):
+            # effect of the CLOSED path of the parent (C13.closed.cleanup) while _set_parent is suspended, before anything was told
+            if not lost and t.dn.attrs['parent'] is peer and not t.server_sent and 'send_server_messages' not in str(label):
+                lost.append(str(label))
+                t.dn.attrs['parent'] = None
+        it.aio.on_yield = on_yield
+        try:
+            run(it, it.getattr(t.dn, '_set_parent'), peer)
+        except PyRaise as pr:
+            ctx.fail('C13.told._set_parent.current-after-suspension', repr(pr.exc))
+            return
+        if not lost:
+            return              # no suspension before the server is told on this path: nothing can change in between
+        f = t.told_server_formula()
+        if f is None:
+            ctx.ok('C13.told._set_parent.current-after-suspension')        # nothing was told after the loss: the CLOSED path has told "no parent"
+            return
+        ctx.prove('C13.told._set_parent.current-after-suspension', f,
+                  f'the parent was lost while _set_parent was suspended ({lost[0]}); after resuming it told the server a position that is not the '
+                  'one derived from the current parent (none: level 0, own name, searching)')
+    ex.run(path, 'set-parent-current')
+
+
+def prove_candidates_stay(src_root, ex: Explorer):
+    """candidate != child for EVERY later moment: a proposed name leaves the cache only by the cache's own rotation inside
+    _on_potential_parents (C13.candidates.only-added).  (a) The done-callback of a connection attempt to a candidate - whatever the
+    attempt's outcome: connected, failed, cancelled - leaves the cache as it is (a candidate we could not reach may still connect to US,
+    and must not be admitted as child then); (b) whole-tree frame scan: no function outside __init__ / _on_potential_parents removes
+    from, clears or rebinds `potential_parents`."""
+    import ast
+    from pyvc.values import ExcVal
+    outcomes = ['connected', 'failed', 'cancelled']
+
+    def callback(ctx: Ctx):
+        it = mk(src_root, ctx)
+        oc = outcomes[ctx.choose(len(outcomes), 'outcome')]
+        cand, other = sstr(ctx, 'candidate'), sstr(ctx, 'other-candidate')
+        cache = [other, cand]
+        settings = Stub('settings', debug=Stub('debug', search_for_parent=True))
+        net = Stub('network', create_peer_connection=Recorder('create_peer_connection', is_async=True))
+        dn = new(it, DN, 'DistributedNetwork', _settings=settings, _network=net, potential_parents=cache, _potential_parent_tasks=[])
+        it.natives['aioslsk.utils.task_counter'] = Native('task_counter', lambda it2, a, k: 1)
+        msg = Stub('PotentialParents.Response', entries=[Stub('entry', username=cand, ip='1.2.3.4', port=1)])
+        dn.attrs['potential_parents'] = []
+        run(it, it.getattr(dn, '_on_potential_parents'), msg, Opaque('server'))
+        tasks = [t for t in it.aio.tasks]
+        if len(tasks) != 1:
+            ctx.fail(f'C13.candidates.stay-after-attempt[{oc}]', f'{len(tasks)} attempts started for one proposed parent')
+            return
+        before = list(dn.attrs['potential_parents']) if isinstance(dn.attrs['potential_parents'], list) else None
+        t = tasks[0]
+        t.done = True
+        if oc == 'failed':
+            t.exc = ExcVal(cls(it, 'exceptions', 'PeerConnectionError'), ('no route',))
+        elif oc == 'cancelled':
+            t.cancelled = True
+        try:
+            for cb in list(t.callbacks):
+                it.call(cb, [t], {})
+        except PyRaise as pr:
+            ctx.fail(f'C13.candidates.stay-after-attempt[{oc}]', f'the done-callback raised {pr.exc!r}')
+            return
+        now = dn.attrs['potential_parents']
+        now = list(now) if isinstance(now, list) else None
+        ok = before is not None and now is not None and len(before) == len(now) and all(a is b for a, b in zip(before, now)) and any(x is cand for x in now)
+        ctx.prove(f'C13.candidates.stay-after-attempt[{oc}]', ok,
+                  f'after the attempt to reach a proposed parent ended ({oc}) the candidate cache went from {before} to {now}: a candidate that '
+                  'drops out is admitted as a child when it connects to us')
+    ex.run(callback, 'candidates-stay')
+
+    src, _ = source(src_root)
+    ctx = Ctx(ex, [])
+    sites, reads = [], 0
+    for mod, qn, node in src.functions():
+        for sub in ast.walk(node):
+            if isinstance(sub, ast.Attribute) and sub.attr == 'potential_parents':
+                reads += 1
+            what = None
+            if isinstance(sub, ast.Delete):
+                for tg in sub.targets:
+                    base = tg.value if isinstance(tg, ast.Subscript) else tg
+                    if isinstance(base, ast.Attribute) and base.attr == 'potential_parents':
+                        what = 'del'
+            if isinstance(sub, ast.Call) and isinstance(sub.func, ast.Attribute) and isinstance(sub.func.value, ast.Attribute) \
+                    and sub.func.value.attr == 'potential_parents' and sub.func.attr in ('remove', 'pop', 'popleft', 'clear', 'discard', 'rotate', 'insert', '__delitem__'):
+                what = sub.func.attr
+            if isinstance(sub, (ast.Assign, ast.AnnAssign, ast.AugAssign)):
+                for tg in (sub.targets if isinstance(sub, ast.Assign) else [sub.target]):
+                    if isinstance(tg, ast.Attribute) and tg.attr == 'potential_parents':
+                        what = 'rebind'
+            if what:
+                sites.append((qn.split(':')[-1], what))
+    allowed = ('DistributedNetwork.__init__', 'DistributedNetwork._on_potential_parents')
+    bad = [s_ for s_ in sites if s_[0] not in allowed]
+    ctx.prove('C13.candidates.removers', reads > 0 and not bad,
+              f'the cache of proposed parents is shrunk / rebound outside __init__ and _on_potential_parents: {bad} (all sites: {sorted(set(sites))})')
+
+
 def prove_registered_before_check(src_root, ex: Explorer):
     """_on_peer_connection_initialized: the new peer is among the registered distributed peers BEFORE the child check runs (which suspends
     on the welcome messages): the CLOSED handler finds a peer through that list (C13.closed.cleanup), so a child whose connection breaks
@@ -577,6 +688,8 @@ def run_item(src_root, item, tier):
     try:
         if kind == 'candidates':
             prove_candidates(src_root, ex)
+            prove_candidates_stay(src_root, ex)
+            prove_set_parent_tells_current(src_root, ex)
         elif kind == 'fanout':
             prove_fanout_relies(src_root, ex)
         elif kind == 'reset':
